@@ -342,16 +342,99 @@ def _r13_3(ctx):
     ctx.expect_instances("R13.3", 2)
 
 
+def _r13_4(ctx):
+    """Record reassembly, decided by interpreting the AST of get_client_hello / get_dtls_client_hello (mitmlint.pyint, `struct` trusted;
+    generators are replayed lazily) over EVERY way of cutting a short synthetic handshake message into 1-3 TLS records, every byte
+    prefix of each such stream, and streams with trailing records.  Bounded representative enumeration (message body of 7 bytes):
+    the weakest kind of argument used here, it decides the clause only up to that bound."""
+    import itertools
+    import struct
+
+    from ..pyint import Interp
+    from ..pyint import Raised
+
+    m = ctx.model
+    ctx.func(L, "get_client_hello")
+    ctx.func(L, "handshake_record_contents")
+    body = bytes(range(0xA0, 0xA7))
+    msg = b"\x01" + len(body).to_bytes(3, "big") + body
+
+    def rec(b, typ=0x16):
+        return bytes([typ, 3, 1]) + len(b).to_bytes(2, "big") + b
+
+    def run(qual, data):
+        it = Interp(m, trusted_modules={"struct": struct})
+        try:
+            return it.call(L, qual, data)
+        except Raised as r:
+            return f"<raises {r.name}>"
+
+    where = (L, "get_client_hello", m.func(L, "get_client_hello"))
+    bad = None
+    n = 0
+    cutsets = [()] + [(a,) for a in range(1, len(msg))] + [(a, b) for a, b in itertools.combinations(range(1, len(msg)), 2)]
+    for cuts in cutsets:
+        edges = (0, *cuts, len(msg))
+        frags = [msg[a:b] for a, b in zip(edges, edges[1:])]
+        stream = b"".join(rec(f) for f in frags)
+        for tail, tname in ((b"", "none"), (rec(b"\x02\x00\x00\x01Z"), "next handshake record"), (rec(b"x", 0x17), "application-data record"), (b"\x16\x03", "partial header")):
+            got = run("get_client_hello", stream + tail)
+            n += 1
+            if got != msg and bad is None:
+                bad = (f"records {[len(f) for f in frags]} + trailing {tname}", got, msg)
+        if len(cuts) <= 1:
+            for k in range(len(stream)):
+                got = run("get_client_hello", stream[:k])
+                n += 1
+                if got is not None and bad is None:
+                    bad = (f"records {[len(f) for f in frags]}, only the first {k} of {len(stream)} bytes received", got, None)
+    ctx.cells += n
+    ctx.check(bad is None, "R13.4", where, "TLS ClientHello reassembly is independent of the record split",
+              f"{bad[0] if bad else ''}: get_client_hello gives {bad[1]!r}, expected {bad[2]!r} - a valid hello split this way is never recognised (or an incomplete one is accepted)" if bad else "",
+              desc=f"get_client_hello: {n} record splits / prefixes / tails of one message give the message exactly when it is complete")
+    # malformed
+    for data, what in ((rec(b""), "empty record"), (rec(msg, 0x17), "non-handshake record"), (b"\x16\x02\x00" + b"\x00\x05hello", "bad version")):
+        got = run("get_client_hello", data)
+        n += 1
+        ctx.check(got == "<raises ValueError>", "R13.4", where, f"get_client_hello rejects: {what}", f"{what}: got {got!r} instead of ValueError", desc=f"{what} -> ValueError")
+    # DTLS: one record (13-byte header) carrying one message (12-byte handshake header)
+    ctx.func(L, "get_dtls_client_hello")
+    dmsg = b"\x01" + len(body).to_bytes(3, "big") + b"\x00\x00" + b"\x00\x00\x00" + len(body).to_bytes(3, "big") + body
+    drec = b"\x16\xfe\xfd" + b"\x00\x00" + b"\x00" * 6 + len(dmsg).to_bytes(2, "big") + dmsg
+    dbad = None
+    for k in range(len(drec) + 1):
+        got = run("get_dtls_client_hello", drec[:k])
+        want = dmsg if k == len(drec) else None
+        ctx.cells += 1
+        if got != want and dbad is None:
+            dbad = (k, got, want)
+    got = run("get_dtls_client_hello", drec + drec)
+    if got != dmsg and dbad is None:
+        dbad = ("two datagrams", got, dmsg)
+    ctx.check(dbad is None, "R13.4", (L, "get_dtls_client_hello", m.func(L, "get_dtls_client_hello")), "DTLS ClientHello extraction on every prefix of a datagram",
+              f"first {dbad[0]} bytes: got {dbad[1]!r}, expected {dbad[2]!r}" if dbad else "", desc=f"get_dtls_client_hello: {len(drec) + 2} prefixes: message exactly when complete")
+    ctx.bounds.append("R13.4: one synthetic handshake message (7-byte body), all 1-3 record splits x 4 tails, all byte prefixes of the 1- and 2-record streams")
+    ctx.expect_instances("R13.4", 5)
+
+
 def check(ctx):
+    ctx.rule("R13.4", "ClientHello record reassembly gives the message exactly when it is complete, for every record split / prefix / tail of a short message (bounded, AST interpretation)")
     ctx.rule("R13.1", "escape set of ClientHello parsing on untrusted bytes is handled at every call site; properties read afterwards raise nothing modelled")
     ctx.rule("R13.2", "parsing is a function of the concatenation: append-only buffer, whole-buffer parse, pure parsers")
     ctx.rule("R13.3", "record-walking arithmetic matches the TLS/DTLS layouts and every struct.unpack gets a buffer of exactly the format size")
     _r13_1(ctx)
     _r13_2(ctx)
     _r13_3(ctx)
+    _r13_4(ctx)
 
 
 MUTANTS = [
+    Mutant("hello-size-read-only-from-a-long-record", L, "        client_hello += d\n        if len(client_hello) >= 4:\n            client_hello_size = struct.unpack(\"!I\", b\"\\x00\" + client_hello[1:4])[0] + 4\n",
+           "        client_hello += d\n        if len(d) >= 4:\n            client_hello_size = struct.unpack(\"!I\", b\"\\x00\" + client_hello[1:4])[0] + 4\n", "R13.4"),
+    Mutant("hello-complete-needs-one-more-byte", L, "            if len(client_hello) >= client_hello_size:\n                return client_hello[:client_hello_size]\n    return None\n\n\ndef parse_client_hello",
+           "            if len(client_hello) > client_hello_size:\n                return client_hello[:client_hello_size]\n    return None\n\n\ndef parse_client_hello", "R13.4"),
+    Mutant("dtls-incomplete-record-accepted", L, "        if len(data) < offset + record_size:\n            return\n        record_body = data[offset : offset + record_size]\n        yield record_body\n        offset += record_size\n\n\ndef get_dtls_client_hello",
+           "        record_body = data[offset : offset + record_size]\n        yield record_body\n        offset += record_size\n\n\ndef get_dtls_client_hello", "R13.4"),
     # R13.1
     Mutant("tls-wrapper-catches-wrong-type", L, "            return ClientHello(client_hello[4:])\n        except EOFError as e:", "            return ClientHello(client_hello[4:])\n        except IndexError as e:", "R13.1"),
     Mutant("dtls-wrapper-removed", L, "        try:\n            return ClientHello(client_hello[12:], dtls=True)\n        except EOFError as e:\n            raise ValueError(\"Invalid ClientHello\") from e\n",
